@@ -39,8 +39,8 @@ def cases_from_vectors(ctx, limit):
     return [V.mkcase("vec%d" % k, v["unlock"], v["lock"], v["flags"], "vector") for k, v in enumerate(vs)]
 
 
-FAMILIES_QUICK = ["unary", "shift", "flow4", "nonmin", "binary", "two2"]
-FAMILIES_THOROUGH = ["unary", "shift", "flow5", "nonmin", "binary", "ternary", "two3"]
+FAMILIES_QUICK = ["unary", "shift", "flow4", "nonmin", "binary", "two2", "locktime"]
+FAMILIES_THOROUGH = ["unary", "shift", "flow5", "nonmin", "binary", "ternary", "two3", "locktime"]
 
 
 def cases_from_model(ctx, per_family):
@@ -61,7 +61,13 @@ def cases_from_model(ctx, per_family):
         if len(em) > per_family:
             em = rng.sample(em, per_family)
         for k, o in enumerate(em):
-            fl = A.FLAGBITS["CHECKLOCKTIMEVERIFY"] | A.FLAGBITS["CHECKSEQUENCEVERIFY"]
+            fl = 0
+            if o["cltv"]:
+                fl |= A.FLAGBITS["CHECKLOCKTIMEVERIFY"]
+            if o["csv"]:
+                fl |= A.FLAGBITS["CHECKSEQUENCEVERIFY"]
+            if o["discourage"]:
+                fl |= A.FLAGBITS["DISCOURAGE_UPGRADABLE_NOPS"]
             if o["md"]:
                 fl |= A.FLAGBITS["MINIMALDATA"]
             if o["mi"]:
@@ -71,9 +77,8 @@ def cases_from_model(ctx, per_family):
             for name, bit in (("p2sh", "P2SH"), ("cleanstack", "CLEANSTACK"), ("sigpushonly", "SIGPUSHONLY")):
                 if o[name]:
                     fl |= A.FLAGBITS[bit]
-            if fam.startswith("two"):
-                fl &= ~(A.FLAGBITS["CHECKLOCKTIMEVERIFY"] | A.FLAGBITS["CHECKSEQUENCEVERIFY"])
-            cases.append(V.mkcase("%s%d" % (fam, k), o["unlock"], o["lock"], fl, "tlc-" + fam))
+            i32 = lambda b: int.from_bytes(bytes(b), "little")
+            cases.append(V.mkcase("%s%d" % (fam, k), o["unlock"], o["lock"], fl, "tlc-" + fam, ver=i32(o["ver"]), lt=i32(o["lt"]), seq=i32(o["seq"])))
     ctx.cov["tlc_generated_cases"] = total
     ctx.cov["tlc_generated_cases_replayed"] = len(cases)
     return cases
